@@ -23,7 +23,8 @@ and every class reducer.  What this file adds:
     (`encPending / decPending`);
   * a TOTAL router `routeT` (a Python exception = `route … = none` or a raising reducer becomes a distinguished
     `#error` event; on error-free calls it is `route`, see Proofs/JobRunner.lean);
-  * `compact`: a store rebuilt over a hash table — provably the identity (`compact_eq`), used only for speed.
+  * `runCompC / runCompsC / routeC / jobPlayC`: the router with hash tables in between, EQUAL to
+    `Simaple.Router.route` (Proofs/JobRunner.lean) — used for speed only.
 No Mathlib.
 -/
 namespace Simaple.JobRunner
@@ -273,11 +274,56 @@ def timeOf (payload : String) : Option Rat :=
 
 def toEvent (e : Ev) : Event := ⟨e.name, e.method, e.tag, e.handler, e.payload, timeOf e.payload⟩
 
+/-! #### speed: stores answered from hash tables
+The function store of `Model/Dispatch.lean` is a closure; the compiled code of a definition that RETURNS a store
+re-runs its body at every lookup (`initDefaults`, `setState`, `timer`, … are compiled with the address as one more
+argument), which nests exponentially along a chain of dispatches.  So after every dispatch the addresses it may
+have written (its bound addresses) are read once into a hash table that answers them from then on, falling back
+to the store before the dispatch.  `runCompC / runCompsC / routeC` are `Simaple.Router.runComp / runComps / route`
+with these tables in between — and EQUAL to them (`routeC_eq_route`, Proofs/JobRunner.lean, by the dispatcher
+frame theorem of C08).  The tables are built inside definitions that return pairs, so they are built once. -/
+
+def tableOf (addrs : List String) (s : Store Json) : Std.HashMap String (Option Json) :=
+  addrs.foldl (fun hm k => hm.insert k (s k)) {}
+
+/-- answer from the table where it has an entry, else from `base` -/
+def lookupIn (hm : Std.HashMap String (Option Json)) (base : Store Json) : Store Json :=
+  fun a => match hm[a]? with | some v => v | none => base a
+
+def runCompC (d : CompDisp Json) (a : Action) (s : Store Json) : Option (Store Json × List Ev) :=
+  match d.handle a with
+  | none => some (s, [])
+  | some (m, r) =>
+    match dispatch d.comp m r s with
+    | none => none
+    | some x =>
+      let hm := tableOf d.comp.boundAddrs x.1
+      some (lookupIn hm s, x.2)
+
+def runCompsC : List (CompDisp Json) → Action → Store Json → Option (Store Json × List Ev)
+  | [], _, s => some (s, [])
+  | d :: ds, a, s =>
+    match runCompC d a s with
+    | none => none
+    | some r1 =>
+      match runCompsC ds a r1.1 with
+      | none => none
+      | some r2 => some (r2.1, r1.2 ++ r2.2)
+
+def routeC (ds : List (CompDisp Json)) (a : Action) (s : Store Json) : Option (Store Json × List Ev) :=
+  match runCompsC ds a s with
+  | none => none
+  | some r =>
+    if a.name = "*" ∧ a.method = "elapse" then
+      let hm := tableOf [clockAddr] (timer clockCodec a r.1)
+      some (lookupIn hm r.1, r.2)
+    else some (r.1, r.2)
+
 /-- `RouterDispatcher.__call__` as a total function: on a Python exception (`route … = none`: a bound entity
     does not exist) the components leave the store alone, the timer still runs and one `#error` event is
-    answered -/
+    answered.  (`routeC = Simaple.Router.route clockCodec`.) -/
 def routeT (ds : List (CompDisp Json)) (a : Action) (s : Store Json) : Store Json × List Event :=
-  match route clockCodec ds a s with
+  match routeC ds a s with
   | some r => (r.1, r.2.map toEvent)
   | none => (timer clockCodec a s, [toEvent (errorEv a.name a.method "ValueError: no entity exists")])
 
@@ -297,21 +343,12 @@ def jobPlayG (ds : List (CompDisp Json)) (a : Action) (s : Store Json) : Store J
   if pendOk s then jobPlay ds s a
   else (timer clockCodec a s, [toEvent (errorEv a.name a.method "previous_callbacks hold an elapse action")])
 
-/-! ### compaction (speed only; `compact keys s = s`) -/
-
-def compactTable (keys : List String) (s : Store Json) : Std.HashMap String (Option Json) :=
-  keys.foldl (fun hm k => hm.insert k (s k)) {}
-
-def lookupIn (hm : Std.HashMap String (Option Json)) (s : Store Json) : Store Json :=
-  fun a => match hm[a]? with | some v => v | none => s a
-
-/-- the same store, with the listed addresses answered from a hash table -/
-def compact (keys : List String) (s : Store Json) : Store Json := lookupIn (compactTable keys s) s
-
-/-- what the driver runs: `jobPlayG` followed by compaction (equal to `jobPlayG`, Proofs/JobRunner.lean) -/
+/-- what the driver runs: `jobPlayG`, then every address of the job is read once into a hash table
+    (equal to `jobPlayG`: `jobPlayC_eq`, Proofs/JobRunner.lean) -/
 def jobPlayC (keys : List String) (ds : List (CompDisp Json)) (a : Action) (s : Store Json) : Store Json × List Event :=
   let r := jobPlayG ds a s
-  (compact keys r.1, r.2)
+  let hm := tableOf keys r.1
+  (lookupIn hm r.1, r.2)
 
 /-! ### the engine of the job: `Simaple.Engine` instantiated (`save = load = id`) -/
 
